@@ -49,6 +49,54 @@ class ParseError(Exception):
     pass
 
 
+_SIMPLE_ESC = {"\\": "\\", '"': '"', "'": "'", "n": "\n", "r": "\r", "t": "\t", "0": "\0"}
+
+
+def rust_unescape(body):
+    """the value of a (non-raw, non-byte) Rust string literal given the text between its quotes, with the escape processing of
+    the Rust reference / syn::LitStr::value(): quote escapes, ASCII escapes `\\n \\r \\t \\\\ \\0 \\xHH` (HH <= 7F), unicode escapes `\\u{H..}`
+    (1-6 hex digits, `_` allowed, a scalar value), a backslash before a line break skips the break and the following whitespace.
+    Anything else is an error, never a guess.  This is how the wire name of `#[argument(rename = "..")]` is read."""
+    out, i, n = [], 0, len(body)
+    while i < n:
+        c = body[i]
+        if c != "\\":
+            if c == "\r":
+                raise ParseError("bare CR in string literal %r" % body)
+            out.append(c)
+            i += 1
+            continue
+        if i + 1 >= n:
+            raise ParseError("string literal %r ends in a backslash" % body)
+        e = body[i + 1]
+        if e in _SIMPLE_ESC:
+            out.append(_SIMPLE_ESC[e])
+            i += 2
+        elif e == "x":
+            h = body[i + 2:i + 4]
+            if not re.fullmatch(r"[0-7][0-9a-fA-F]", h):
+                raise ParseError("escape \\x%s in string literal %r is not \\x00..\\x7F" % (h, body))
+            out.append(chr(int(h, 16)))
+            i += 4
+        elif e == "u":
+            m = re.match(r"\{([0-9a-fA-F_]*)\}", body[i + 2:])
+            digits = m.group(1).replace("_", "") if m else ""
+            if not m or not 1 <= len(digits) <= 6 or m.group(1).startswith("_"):
+                raise ParseError("unicode escape at %r in string literal %r not understood" % (body[i:i + 12], body))
+            v = int(digits, 16)
+            if v > 0x10FFFF or 0xD800 <= v <= 0xDFFF:
+                raise ParseError("unicode escape \\u{%s} in string literal %r is not a scalar value" % (digits, body))
+            out.append(chr(v))
+            i += 2 + m.end()
+        elif e == "\n":
+            i += 2
+            while i < n and body[i] in " \t\n\r":
+                i += 1
+        else:
+            raise ParseError("escape \\%s in string literal %r not understood" % (e, body))
+    return "".join(out)
+
+
 def tokenize(text):
     toks, pos = [], 0
     while True:
@@ -61,10 +109,7 @@ def tokenize(text):
         if m.group(1) is not None:
             continue
         if m.group(2) is not None:
-            s = m.group(2)[1:-1]
-            if "\\" in s:
-                raise ParseError("escape in string literal %r not supported" % s)
-            toks.append(("str", s))
+            toks.append(("str", rust_unescape(m.group(2)[1:-1])))
         elif m.group(3) is not None:
             toks.append(("id", m.group(3)))
         else:
@@ -431,7 +476,10 @@ def family():
 
 
 # ---------------------------------------------------------------- heck 0.5 `transform`, ported from the Rust source
-# (ASCII case classes; other chars: str.isalnum / caseless).  Also used by the Python reference of tools/props/c17.py.
+# (char by char as heck does it: char::is_alphanumeric / is_lowercase / is_uppercase / to_lowercase / to_uppercase are taken from
+# Python's Unicode tables: str.isalnum / islower / isupper / lower / upper of ONE character, which are the same Unicode properties
+# and full case mappings, e.g. `µ` U+00B5 -> `Μ` U+039C, `ß` -> `SS`; heck's own final-sigma rule is kept as heck has it).
+# Also used by the Python reference of tools/props/c17.py.
 
 def heck_words(s):
     words = []
@@ -444,8 +492,8 @@ def heck_words(s):
             pieces.append(piece)
             piece = ""
     pieces.append(piece)
-    low = lambda c: "a" <= c <= "z"
-    up = lambda c: "A" <= c <= "Z"
+    low = lambda c: c.islower()
+    up = lambda c: c.isupper()
     for w in pieces:
         init, mode = 0, "b"
         i = 0
@@ -468,13 +516,21 @@ def heck_words(s):
     return words
 
 
+def heck_lowercase(w):
+    return "".join("\u03c2" if (c == "\u03a3" and i == len(w) - 1) else c.lower() for i, c in enumerate(w))
+
+
+def heck_capitalize(w):
+    return w[:1].upper() + heck_lowercase(w[1:])
+
+
 def snake(s):
-    return "_".join(w.lower() for w in heck_words(s))
+    return "_".join(heck_lowercase(w) for w in heck_words(s))
 
 
 def camel(s):
     ws = heck_words(s)
-    return "".join(w.lower() if i == 0 else w[:1].upper() + w[1:].lower() for i, w in enumerate(ws))
+    return "".join(heck_lowercase(w) if i == 0 else heck_capitalize(w) for i, w in enumerate(ws))
 
 
 # ---------------------------------------------------------------- the macro's by-name key rules, read from /repo/proc-macros
@@ -1009,8 +1065,12 @@ def macro_optional(q, rule=None):
 # ---------------------------------------------------------------- Coq output
 
 def cstr(s):
+    """a name as a Coq `bytes` term: the b#".." literal for printable ASCII, else the list of its UTF-8 bytes (control characters and
+    non-ASCII text never go through Coq's lexer)"""
     if any(ord(c) > 126 or ord(c) < 32 for c in s):
-        raise ParseError("non-printable / non-ASCII name %r" % s)
+        if any(0xD800 <= ord(c) <= 0xDFFF for c in s):
+            raise ParseError("name %r is not a Rust string (surrogate)" % s)
+        return "[" + "; ".join("x%02x" % b for b in s.encode("utf-8")) + "]"
     return 'b#"%s"' % s.replace('"', '""')
 
 
